@@ -29,7 +29,7 @@ EXHAUSTIVE = {"quick": False, "thorough": False}
 def plan(tier, seed):
     if tier == "quick":
         return [{"trees": 2500}]
-    return [{"trees": 3500, "salt": i} for i in range(16)]
+    return [{"trees": 40000, "salt": i} for i in range(32)]
 
 
 _RULES_WITH_REF = None
